@@ -144,6 +144,7 @@ static void fault_report(const char *fn)
 	viol("C08", what, "%s: signal %d at %s accessing %s", fn, vk_last_fault.sig, r, a);
 }
 static int last_ret;     /* return code of the public wrapper */
+static unsigned call_alarm_ms = 5000;
 static void *do_init(void)
 {
 	faulted = 0;
@@ -155,7 +156,7 @@ static void *do_submit(void *c, const void *buf, uint32_t len, int flags)
 {
 	void *r = NULL;
 	faulted = 0;
-	vk_alarm(5000);
+	vk_alarm(call_alarm_ms);
 	if (VK_TRY()) {
 		if (public_entry) { void **out = (void **)(s_outp.rw + s_outp.size - 8); *out = (void *)0x1; last_ret = (int)VCALLN(pub_submit, pn_submit, AP(mgr), AP(c), AP(out), AP(buf), A32(len), A32(flags)); r = *out; }
 		else r = (void *)VCALLN(f_submit, n_submit, AP(mgr), AP(c), AP(buf), A32(len), A32(flags));
@@ -168,7 +169,7 @@ static void *do_flush(void)
 {
 	void *r = NULL;
 	faulted = 0;
-	vk_alarm(5000);
+	vk_alarm(call_alarm_ms);
 	if (VK_TRY()) {
 		if (public_entry) { void **out = (void **)(s_outp.rw + s_outp.size - 8); *out = (void *)0x1; last_ret = (int)VCALLN(pub_flush, pn_flush, AP(mgr), AP(out)); r = *out; }
 		else r = (void *)VCALLN(f_flush, n_flush, AP(mgr));
@@ -271,7 +272,7 @@ static int apply(const sym *s)
 		if (FIELD(c, A->o_total, uint64_t) != mc->bytes) { viol("C15", "total_length", "context c%d reports total_length %llu, sum of segments is %llu", ri, (unsigned long long)FIELD(c, A->o_total, uint64_t), (unsigned long long)mc->bytes); return 1; }
 		if (mc->last) {
 			vk_stat("digests_checked", 1);
-			if (!digest_matches(c, mc->dig)) { viol(!strcmp(mode, "len") ? "C15" : "C01", "digest", "context c%d completed with a digest different from the standard hash of its %llu bytes (%d segments)", ri, (unsigned long long)mc->bytes, mc->nseg); return 1; }
+			if (!digest_matches(c, mc->dig)) { viol(!strcmp(mode, "len") ? "C15" : "C01", "digest", "context c%d completed with a digest different from the standard hash of its %llu bytes (%d segments)", ri, (unsigned long long)mc->bytes, mc->nseg); if (!pair_mode) return 1; /* C20: go on to the paired comparison */ }
 			mc->st = M_COMPLETE;
 		} else mc->st = M_IDLE;
 		M.ninflight--;
@@ -294,7 +295,7 @@ static int apply(const sym *s)
 }
 
 /* ---------- alphabet ---------- */
-static uint32_t LAM[7];
+static uint32_t LAM[8];      /* policies use the first 7; the 8th (padding threshold) only occurs as a deviation */
 static int enum_symbols(sym *out)
 {
 	int n = 0, fresh = -1, idle[2] = { -1, -1 }, infl = -1, comp = -1;
@@ -307,7 +308,7 @@ static int enum_symbols(sym *out)
 	}
 	if (M.c[K - 1].st == M_FRESH && comp < 0) { /* a never-used context also rejects UPDATE/LAST as completed */ comp = K - 1; }
 	out[n++] = (sym){ 0, 0, 0, 0, 0 };
-	for (int li = 0; li < 7; li++) {
+	for (int li = 0; li < 8; li++) {
 		if (fresh >= 0) { out[n++] = (sym){ 1, fresh, ISAL_HASH_ENTIRE, LAM[li], 0 }; out[n++] = (sym){ 1, fresh, ISAL_HASH_FIRST, LAM[li], 0 }; }
 		for (int k = 0; k < 2; k++) if (idle[k] >= 0) { out[n++] = (sym){ 1, idle[k], ISAL_HASH_UPDATE, LAM[li], 0 }; out[n++] = (sym){ 1, idle[k], ISAL_HASH_LAST, LAM[li], 0 }; }
 	}
@@ -485,6 +486,7 @@ static int setup_instance(const struct fam *f)
 	}
 	unsigned B = A->block;
 	LAM[0] = 0; LAM[1] = 1; LAM[2] = B - 1; LAM[3] = B; LAM[4] = B + 1; LAM[5] = 2 * B + 3; LAM[6] = 7 * B;
+	LAM[7] = B - (A->ref == REF_SHA512 ? 16 : 8);     /* first length whose padding needs a second block */
 	ctx_stride = (A->ctx_size + 63) & ~(size_t)63;
 	/* probe the number of lanes: equal long jobs until one comes back */
 	K = MAXK; L = A->max_lanes;
@@ -599,10 +601,12 @@ static void run_seg(void)
 			if (vk_want_trace && (l1 % 43 || l2 % 47)) continue;
 			if (vk_deadline_hit()) { vk_stat("deadline_skipped", 1); goto next; }
 			/* variants: FIRST/LAST ; FIRST/UPDATE/LAST(0) ; ENTIRE(l1) when l2==0 ; (thorough) three pieces */
-			for (int var = 0; var < 3 + (int)step3; var++) {
+			for (int var = 0; var < 3 + (int)step3; var++) for (int env = 0; env < (pair_mode ? 2 : 1); env++) {
 				unsigned l3 = 0;
 				if (var == 2 && l2 != 0) continue;
 				if (var == 3) { l3 = (l1 * 7 + l2 * 3) % (B + 2); }
+				/* C20: the same stream under two hidden-input environments (object prefill, register/stack poison) */
+				if (pair_mode) { env_prefill = env ? 0xff : 0x00; vk_call_poison = env ? 0xfedcba9876543210ULL : 0x1111111111111111ULL; }
 				fresh_system();
 				if (faulted) goto next;
 				for (unsigned b = 0; b < nbg; b++) {
@@ -628,6 +632,11 @@ static void run_seg(void)
 				{ int guard = 0; while (M.ninflight > 0 && guard++ < 80) { sym fl = { 0 }; if (apply(&fl)) goto nextcase; } }
 				if (M.c[0].st != M_COMPLETE) viol("C06", "stream_not_completed", "message context did not complete after draining (model state %d)", M.c[0].st);
 				vk_stat("streams", 1);
+				if (pair_mode) {
+					static uint8_t d0[64]; static uint32_t st0;
+					if (env == 0) { memcpy(d0, CTX(0) + A->o_digest, A->dwords * A->wsize); st0 = FIELD(CTX(0), A->o_status, uint32_t); }
+					else { vk_stat("pairs", 1); if (memcmp(d0, CTX(0) + A->o_digest, A->dwords * A->wsize) || st0 != FIELD(CTX(0), A->o_status, uint32_t)) viol("C20", "pair_digest_seg", "digest/status of a %u+%u(+%u) byte message depends on hidden inputs (contents of the context/manager memory before initialisation, registers, dead stack)", l1, l2, l3); }
+				}
 				{ uint32_t k[5] = { l1, l2, l3, (uint32_t)var, (uint32_t)occ }; vk_distinct("seg_shape", vk_hash(k, sizeof k, vk_hash(inst, strlen(inst), 3))); }
 nextcase:;
 			}
@@ -760,6 +769,59 @@ next:;
 	}
 }
 
+
+/* ================= mode=big : genuine > 4 GiB streams (C15, thorough) ================= */
+/* Periodic data through aliased mappings of one 1 MiB memfd, so that a 4 GiB + 1 MiB virtual buffer costs 1 MiB of
+ * memory. Stream: FIRST(2^32-1) crosses 2^29; UPDATE(2^29+3) crosses 2^32 and 2^32+2^29; LAST(77). The digest must
+ * equal the reference hash of the whole stream and total_length the sum; this also validates the teleport of mode=len
+ * (state reached from the initial state vs state reached by adding to total_length). */
+static void run_big(void)
+{
+	call_alarm_ms = 900000;      /* a single call hashes up to 4 GiB here */
+	const size_t MB = 1 << 20; const uint64_t P1 = (1ull << 32) - 1, P2 = (1ull << 29) + 3, P3 = 77;
+	int fd = memfd_create("periodic", 0);
+	if (fd < 0 || ftruncate(fd, MB)) { vk_note("memfd unavailable: genuine long streams skipped"); return; }
+	uint8_t *pat = mmap(NULL, MB, PROT_READ | PROT_WRITE, MAP_SHARED, fd, 0);
+	vk_fill(pat, MB, 0xb16b16);
+	size_t total_map = ((size_t)1 << 32) + 2 * MB;
+	uint8_t *R = mmap((void *)0x500000000000ULL, total_map, PROT_NONE, MAP_PRIVATE | MAP_ANONYMOUS | MAP_NORESERVE | MAP_FIXED_NOREPLACE, -1, 0);
+	if (R == MAP_FAILED) { vk_note("cannot reserve 4 GiB of address space: genuine long streams skipped"); return; }
+	for (size_t o = 0; o < total_map; o += MB) if (mmap(R + o, MB, PROT_READ, MAP_SHARED | MAP_FIXED, fd, 0) == MAP_FAILED) { vk_note("aliased mapping failed at %zu MiB: genuine long streams skipped", o >> 20); return; }
+	for (int a = 0; a < 5; a++) {
+		if (a % vk_nshards != vk_shard) continue;
+		if (vk_only && strcmp(vk_only, algs[a].name)) continue;
+		/* reference over the periodic stream */
+		ref_hash rh; uint8_t dig[64]; uint64_t tot = P1 + P2 + P3;
+		ref_hash_init(&rh, algs[a].ref);
+		{ uint64_t left = tot; size_t ph = 0; while (left) { size_t n = MB - ph; if (n > left) n = left; ref_hash_update(&rh, pat + ph, n); left -= n; ph = (ph + n) % MB; } }
+		ref_hash_final(&rh, 0, dig);
+		vk_stat("reference_bytes_hashed", tot);
+		for (unsigned fi = 0; fi < NFAM; fi++) {
+			if (fams[fi].alg != a) continue;
+			if (!setup_instance(&fams[fi])) continue;
+			if (vk_deadline_hit()) { vk_stat("deadline_skipped", 1); continue; }
+			fresh_system(); if (faulted) continue;
+			uint8_t *c = CTX(0);
+			uint64_t pos = 0; const uint64_t pl[3] = { P1, P2, P3 }; const int fl[3] = { ISAL_HASH_FIRST, ISAL_HASH_UPDATE, ISAL_HASH_LAST };
+			int ok = 1;
+			for (int k = 0; k < 3 && ok; k++) {
+				void *r = do_submit(c, R + (pos % MB), (uint32_t)pl[k], fl[k]);
+				vk_stat("transitions", 1);
+				if (faulted) { ok = 0; break; }
+				for (int g = 0; !r && g < 8; g++) { r = do_flush(); if (faulted) { ok = 0; break; } }
+				if (r != c) { viol("C06", "long_stream_not_returned", "context not handed back after segment %d of the > 4 GiB stream", k); ok = 0; break; }
+				pos += pl[k];
+				if (FIELD(c, A->o_total, uint64_t) != pos) { viol("C15", "total_length", "after %llu bytes the context reports total_length %llu", (unsigned long long)pos, (unsigned long long)FIELD(c, A->o_total, uint64_t)); ok = 0; }
+			}
+			if (ok) {
+				vk_stat("streams", 1); vk_stat("long_stream_bytes", tot);
+				if (!digest_matches(c, dig)) viol("C15", "digest_long_stream", "digest of the genuine %llu-byte stream (FIRST 2^32-1, UPDATE 2^29+3, LAST 77) differs from the reference hash", (unsigned long long)tot);
+				{ uint32_t k[2] = { (uint32_t)fi, 99 }; vk_distinct("len_shape", vk_hash(k, sizeof k, 4)); }
+			}
+		}
+	}
+}
+
 int main(int argc, char **argv)
 {
 	const char *v;
@@ -783,6 +845,7 @@ int main(int argc, char **argv)
 	else if (!strcmp(mode, "seg")) run_seg();
 	else if (!strcmp(mode, "len")) run_len();
 	else if (!strcmp(mode, "jobs")) run_jobs();
+	else if (!strcmp(mode, "big")) run_big();
 	vk_sample("explore: sha256_avx2 policy entire-fill, deviation after 9 submits: REJ(c3,0x4,64) then SUBMIT(c9,LAST,65) ... FLUSH x8; seg: sha1_sse_ni FIRST(63)/UPDATE(66)/LAST(0) with 1 background job");
 	vk_finish();
 	return 0;
